@@ -27,7 +27,9 @@ def op_events(pr, cdir, godir, endian):
                 branch = "le" if endian == "little" else "be"
             st = opparse.parse_body(lines, m, "c")
             events.append({"ev": "OpBody", "t": t, "kind": kind, "mode": "c", "branch": branch, "msg": cname,
-                           "endian": endian, "zeroed": branch != "be",
+                           # C04 speaks of decoding "into a zeroed target" for every branch; the big-endian branch's own
+                           # memset is then a no-op and is not demanded
+                           "endian": endian, "zeroed": True,
                            "uses_byte_view": '"fbyte"' in json.dumps(st), "stmts": st})
         if gtext is not None:
             gb = opparse.go_bodies(gtext, cname)
